@@ -241,6 +241,45 @@ def _cb_run(c):
     return ([S.terms(v) for v in (v1, v2, v3)], S.terms(origin), [S.terms(x) for x in pts], before)
 
 
+def _cb_run_array(c):
+    """second calling form used by the package (ExchangeMap, 1- and 2-atom references): ONE (3, 3) array"""
+    arr = np.empty((3, 3), dtype=object)
+    for k in range(3):
+        for i in range(3):
+            arr[k, i] = S.real(f"p{k}_{i}")
+    before = S.terms(arr)
+    (v1, v2, v3), origin = _aux().calcule_base(arr)
+    return ([S.terms(v) for v in (v1, v2, v3)], S.terms(origin), S.terms(arr), before)
+
+
+def task_cb_array_form(seed):
+    """the frame clauses do not depend on the container; what can differ is aliasing: inputs unmodified, origin = first point"""
+    aux = _aux()
+    tag = f"{PROP}/calcule_base/array-argument"
+    try:
+        with S.patched(aux, np=S.NumpyFacade()):
+            paths = S.explore(_cb_run_array, assumptions=CB_PRE, max_paths=64)
+    except S.SymError as e:
+        return [ob(f"{tag}/symbolic-run", "undecided", engine="symrun", reason=str(e))]
+    out = []
+    flatP = [x for row in P for x in row]
+    for p in sorted(paths, key=lambda q: q.decisions):
+        ptag = f"path[{_dec(p)}]"
+        if p.exc is not None:
+            out.append(ob(f"{tag}/no-exception/{ptag}", "refuted", engine="symrun", reason=f"real code raises {p.exc!r}",
+                          cex={"fn": "calcule_base", "points": [[0.0, 0, 0], [1.0, 0.5, 0], [0.0, 0, 2.0]], "signature": "array-form", "as_array": True}))
+            continue
+        (v1, v2, v3), origin, after, before = p.result
+        hy = p.hyps()
+        cexb = lambda m: dict(_cex_cb(m), as_array=True, signature="array-form")
+        out.append(discharge(f"{tag}/ensures.unmodified_input_array/{ptag}", hy, z3.And(*[a == b for a, b in zip(after, flatP)]),
+                             backends=("z3",), cex_builder=cexb, timeout_ms=10000))
+        out.append(discharge(f"{tag}/ensures.origin_is_first_point/{ptag}", hy, z3.And(*[a == b for a, b in zip(origin, P[0])]),
+                             backends=("z3",), cex_builder=cexb, timeout_ms=10000))
+        out.append(discharge(f"{tag}/ensures.unit_v1/{ptag}", hy, spec.norm2(v1) == 1, backends=("z3", "gb"), cex_builder=cexb, timeout_ms=10000))
+    return out
+
+
 def _cb_paths():
     aux = _aux()
     with S.patched(aux, np=S.NumpyFacade()):
@@ -453,12 +492,20 @@ def numeric_rot(axis, theta, theta2=0.3, k=2.0):
     return [c for c in cl if not c.holds(1e-9)]
 
 
-def numeric_cb(points, tol=1e-9):
+def numeric_cb(points, tol=1e-9, as_array=False):
     aux = _aux()
-    pts = [np.array(p, dtype=float) for p in points]
-    orig = [p.copy() for p in pts]
-    with np.errstate(all="ignore"):
-        (v1, v2, v3), o = aux.calcule_base(pts)
+    if as_array:
+        arr = np.array(points, dtype=float)
+        pts = [arr[0], arr[1], arr[2]]              # views: a write through the (3, 3) argument shows up here
+        orig = [p.copy() for p in pts]
+        with np.errstate(all="ignore"):
+            (v1, v2, v3), o = aux.calcule_base(arr)
+        o = np.array(o, dtype=float)
+    else:
+        pts = [np.array(p, dtype=float) for p in points]
+        orig = [p.copy() for p in pts]
+        with np.errstate(all="ignore"):
+            (v1, v2, v3), o = aux.calcule_base(pts)
     L = lambda a: [float(x) for x in a]
     sc = max(1.0, float(np.linalg.norm(orig[2] - orig[0])), float(np.linalg.norm(orig[1] - orig[0])))
     cl = k_aux.calcule_base_post(L(orig[0]), L(orig[1]), L(orig[2]), L(v1), L(v2), L(v3), L(o),
@@ -488,6 +535,14 @@ def _cb_families(tier, seed):
                 p0 = rng.integers(-4, 5, 3) * 0.25 * sc
                 dd = np.array(dv, dtype=float) * sc
                 fam.append(("collinear-axis/diagonal", [p0.tolist(), (p0 + a * dd).tolist(), (p0 + b * dd).tolist()]))
+    # exactly collinear along a direction that is NEARLY (not exactly) a coordinate axis or diagonal: tilts 1e-9 .. 1e-2
+    for dv in axes:
+        for tilt in (1e-9, 3e-7, 1e-6, 4e-5, 1e-3, 7e-3):
+            tv = np.array([0.6, -0.8, 0.3]) * tilt
+            dd = np.array(dv, dtype=float) + tv
+            for a, b in ((0.5, 1.0), (-1.0, 1.0), (2.0, -1.5)):
+                p0 = rng.integers(-4, 5, 3) * 0.25
+                fam.append(("collinear-near-axis", [p0.tolist(), (p0 + a * dd).tolist(), (p0 + b * dd).tolist()]))
     for _ in range(n):
         dd = rng.integers(-9, 10, 3).astype(float)
         if not dd.any():
@@ -509,18 +564,18 @@ def task_numeric_cb(tier, seed):
     for name, lst in per.items():
         bad_first = None
         nbad = 0
-        for pts in lst:
-            bad = numeric_cb(pts)
+        for ci, pts in enumerate(lst):
+            bad = numeric_cb(pts, as_array=(ci % 2 == 1))
             if bad:
                 nbad += 1
                 if bad_first is None:
-                    bad_first = (pts, bad)
+                    bad_first = (pts, bad, ci % 2 == 1)
         if bad_first:
-            pts, bad = bad_first
+            pts, bad, arrform = bad_first
             out.append(ob(f"{PROP}/calcule_base/bounded.{name}", "refuted", kind="bounded", engine="smallscope",
                           backend="numeric-contract", evaluations=len(lst),
                           reason=f"{nbad}/{len(lst)} inputs violate the contract; first: " + "; ".join(c.describe() for c in bad[:4]),
-                          cex={"fn": "calcule_base", "points": pts, "signature": _cb_signature(pts)}, sample={"points": pts}))
+                          cex={"fn": "calcule_base", "points": pts, "signature": _cb_signature(pts), "as_array": arrform}, sample={"points": pts}))
         else:
             out.append(ob(f"{PROP}/calcule_base/bounded.{name}", "discharged", kind="bounded", engine="smallscope",
                           backend="numeric-contract", evaluations=len(lst), sample={"points": lst[0]}))
@@ -566,6 +621,7 @@ def tasks(prop, tier, seed):
         ("rotation_matrix/compose", task_rot_compose, (seed,), 300.0),
         ("rotation_matrix/scale", task_rot_scale, (seed,), 300.0),
         ("calcule_base/coverage", task_cb_coverage, (seed,), 300.0),
+        ("calcule_base/array-form", task_cb_array_form, (seed,), 600.0),
     ]
     for k in range(24):
         t.append((f"calcule_base/path{k}", task_cb_path, (k, seed), 600.0))
@@ -586,7 +642,9 @@ def replay(prop, cex):
         return {"reproduced": bool(bad), "violated": [c.describe() for c in bad[:10]], "inputs": cex}
     pts = cex["points"]
     try:
-        bad = numeric_cb(pts)
+        bad = numeric_cb(pts, as_array=bool(cex.get("as_array")))
+        if not bad:
+            bad = numeric_cb(pts, as_array=not bool(cex.get("as_array")))
     except Exception as e:
         return {"reproduced": True, "observed": f"raises {type(e).__name__}: {e}", "inputs": cex}
     return {"reproduced": bool(bad), "violated": [c.describe() for c in bad[:10]], "inputs": cex}
